@@ -689,8 +689,13 @@ def random_history(rnd, max_versions=12, max_turnout=30):
         pev = [rnd.randint(0, 100), 1]
     elif r < 0.8:
         pev = [100, 1]
-    else:
+    elif r < 0.92:
         f = Fraction(rnd.randint(0, 199), 2)
+        pev = [f.numerator, f.denominator]
+    else:
+        # the provider's expected vote was too low: more votes are in than were expected (percent above 100); the history
+        # is then spread over 0..that percent like any other (seeded change C17_H)
+        f = rnd.choice([Fraction(101), Fraction(103), Fraction(110), Fraction(120), Fraction(207, 2)])
         pev = [f.numerator, f.denominator]
     return {"hist": hist, "pev": pev}
 
